@@ -434,6 +434,8 @@ def read_associate_def(line: str):
         if match_char < 0:
             return "assoc", []
         var_words = separate_def_list(trailing_line[:match_char].strip())
+        if var_words is None:
+            var_words = []
         return "assoc", var_words
 
 
